@@ -109,9 +109,9 @@ theorem localOp_shape (d : Defects) (tick : Nat) (day : Day) (used : List Nat) (
           exact ⟨[_], rfl, by simp [GoodW]⟩
         · rename_i hfind
           rcases hg with hd | hg
-          · simp only [Option.some.injEq, Prod.mk.injEq] at h
+          · simp only [hd, Bool.false_eq_true, ↓reduceIte, Option.some.injEq, Prod.mk.injEq] at h
             obtain ⟨_, rfl⟩ := h
-            exact ⟨[_], rfl, by simp [GoodW, hd]⟩
+            exact ⟨[_], rfl, by simp [GoodW]⟩
           · exact absurd hfind (find_none_of_hasRef (by simpa [refdelGuard] using hg))
     · cases h
   | stream s' mode rows => simp [localOp] at h
